@@ -178,6 +178,16 @@ func LoadWorld(repo, specDir string, dirs []string, extraEnv []string) (*World, 
 		cfiles = append(cfiles, cc...)
 		var gen strings.Builder
 		fmt.Fprintf(&gen, "package %s\n\n", pkgName)
+		impSeen := map[string]bool{}
+		for _, cf := range cfiles {
+			for _, im := range contractImports(readFileOr(cf)) {
+				if !impSeen[im] {
+					impSeen[im] = true
+					fmt.Fprintf(&gen, "import %s\n", im)
+					// keep the import used even when no clause mentions it
+				}
+			}
+		}
 		for _, cf := range cfiles {
 			src := readFileOr(cf)
 			if src == nil {
@@ -287,6 +297,46 @@ func LoadWorld(repo, specDir string, dirs []string, extraEnv []string) (*World, 
 // lookupFunc finds the ssa function a contract is about (function, method, or interface
 // method for interface contracts).
 func (w *World) lookupFunc(p *ssa.Package, c *Contract) *ssa.Function {
+	if c.ExternPkg != "" {
+		var ep *ssa.Package
+		for _, q := range w.prog.AllPackages() {
+			if q.Pkg.Path() == c.ExternPkg {
+				ep = q
+			}
+		}
+		if ep == nil {
+			return nil
+		}
+		if c.Recv == "" {
+			f := ep.Func(c.Short)
+			if f != nil {
+				c.Key = f.String()
+			}
+			return f
+		}
+		parts := strings.SplitN(c.Short, ".", 2)
+		tn := parts[0]
+		if j := strings.LastIndex(tn, "."); j >= 0 {
+			tn = tn[j+1:]
+		}
+		obj := ep.Pkg.Scope().Lookup(tn)
+		if obj == nil {
+			return nil
+		}
+		var recvT types.Type = obj.Type()
+		if strings.Contains(c.Recv, "*") {
+			recvT = types.NewPointer(recvT)
+		}
+		sel := w.prog.MethodSets.MethodSet(recvT).Lookup(ep.Pkg, parts[1])
+		if sel == nil {
+			return nil
+		}
+		f := w.prog.MethodValue(sel)
+		if f != nil {
+			c.Key = f.String()
+		}
+		return f
+	}
 	if c.Recv == "" {
 		return p.Func(c.Short)
 	}
